@@ -215,7 +215,7 @@ func CheckModule(mpath, version string) (valid bool, why, unspec string) {
 			return true, "", unspec
 		}
 		if major != "v"+n {
-			return false, "major-mismatch", unspec
+			return false, "major-mismatch", "" // a major that does not match the path is decisive whatever else is unsettled
 		}
 		return true, "", unspec
 	}
@@ -239,13 +239,13 @@ func CheckModule(mpath, version string) (valid bool, why, unspec string) {
 		if major == "v0" || major == "v1" || pv.Build == "+incompatible" {
 			return true, "", unspec
 		}
-		return false, "major-mismatch", unspec
+		return false, "major-mismatch", "" // a major that does not match the path is decisive whatever else is unsettled
 	}
 	if pv.Build == "+incompatible" {
 		unspec = "incompatible-with-major-suffix"
 	}
 	if major != suffix {
-		return false, "major-mismatch", unspec
+		return false, "major-mismatch", "" // a major that does not match the path is decisive whatever else is unsettled
 	}
 	return true, "", unspec
 }
